@@ -301,6 +301,10 @@ impl World for SemWorld {
         m
     }
 
+    fn word_addrs(&self) -> Vec<usize> {
+        self.root.__verif_snapshot().addrs
+    }
+
     fn pending(&self) -> usize {
         self.futs.values().filter(|x| x.polled && !x.done).count()
     }
